@@ -1,0 +1,68 @@
+//go:build verif
+
+// Contracts for package search: the Searcher interface (read by /verif/gocv; comment-only effect
+// with the verif tag off).
+
+package search
+
+// ---------------------------------------------------------------------------
+// C08 / C02: searchers yield ascending ids; Advance lands on the first match at/after the target
+// ---------------------------------------------------------------------------
+
+// Internal ids are compared with IndexInternalID.Compare only. idKey maps an id to an abstract key in
+// a strict total order (the order of Go strings is used as THE generic strict total order: it is
+// axiomatised as irreflexive, transitive and total, nothing else).
+//@ uf idKey(id index.IndexInternalID) string
+
+//@ assume func index.IndexInternalID.Compare(a, b)
+//@   pure
+//@   ensures iff(result < 0, idKey(a) < idKey(b)) && iff(result == 0, idKey(a) == idKey(b)) && result >= -1 && result <= 1
+//@ assume func index.IndexInternalID.Equals(a, b)
+//@   pure
+//@   ensures result == (idKey(a) == idKey(b))
+
+// Ghost state of every searcher object o: the immutable set of ids it matches (mset), and its
+// cursor: started(o) / last(o) = key of the last id it returned / done(o) = it has returned nil.
+//@ uf mset(s Searcher, k string) bool
+//@ ghostfield Searcher.started bool
+//@ ghostfield Searcher.last string
+//@ ghostfield Searcher.done bool
+
+// key of a returned match
+//@ spec dmKey(d *DocumentMatch) string = idKey(d.IndexInternalID)
+// x has not been consumed yet by a searcher whose cursor is (started, last)
+//@ spec unconsumed(started bool, last string, x string) bool = !started || x > last
+
+// Next returns the least match not yet consumed (strictly after the last returned one), or nil
+// when there is none. Returned matches come from the pool: they are treated as fresh objects.
+//@ iface Searcher.Next(s, ctx)
+//@   props C08 C02
+//@   mode int
+//@   requires s != nil
+//@   modifies s.started, s.last, s.done
+//@   ensures implies(result1 != nil, result0 == nil)
+//@   ensures implies(old(s.done) && result1 == nil, result0 == nil)
+//@   ensures implies(result1 == nil && result0 != nil, fresh(result0) && mset(s, dmKey(result0)) && unconsumed(old(s.started), old(s.last), dmKey(result0)) && s.started && s.last == dmKey(result0) && !s.done)
+//@   ensures implies(result1 == nil && result0 != nil, all(x, string, implies(mset(s, x) && unconsumed(old(s.started), old(s.last), x), x >= dmKey(result0))))
+//@   ensures implies(result1 == nil && result0 == nil, s.done && s.started == old(s.started) && s.last == old(s.last) && all(x, string, implies(mset(s, x), !unconsumed(old(s.started), old(s.last), x))))
+
+// Advance(ID) with a forward target (beyond the last returned id, or as the first call) returns the
+// least match >= ID, or nil when there is none. A searcher that is done may be advanced anywhere.
+//@ iface Searcher.Advance(s, ctx, ID)
+//@   props C08 C02
+//@   mode int
+//@   requires s != nil && (s.done || unconsumed(s.started, s.last, idKey(ID)))
+//@   modifies s.started, s.last, s.done
+//@   ensures implies(result1 != nil, result0 == nil)
+//@   ensures implies(old(s.done) && result1 == nil, result0 == nil)
+//@   ensures implies(result1 == nil && result0 != nil, fresh(result0) && mset(s, dmKey(result0)) && dmKey(result0) >= idKey(ID) && s.started && s.last == dmKey(result0) && !s.done)
+//@   ensures implies(result1 == nil && result0 != nil, all(x, string, implies(mset(s, x) && x >= idKey(ID), x >= dmKey(result0))))
+//@   ensures implies(result1 == nil && result0 == nil, s.done && s.started == old(s.started) && s.last == old(s.last) && all(x, string, implies(mset(s, x), x < idKey(ID))))
+
+// The pool resets a match when it is put back (its fields must not be relied on afterwards).
+//@ func DocumentMatchPool.Put
+//@   props C08
+//@   mode int
+//@   trusted pool internals (recycling of DocumentMatch objects) are outside the verified subset
+//@   requires p != nil
+//@   modifies *d, p.avail, p.avail[*]
